@@ -248,6 +248,20 @@ theorem code_matches_model :
       "return candidates[i], nil"] := by
   refine ⟨rfl, rfl, rfl, rfl, rfl, rfl, rfl, rfl, rfl, rfl⟩
 
+/-- **The code the model was written against.** -/
+theorem new_client_matches_model :
+    Gen.Upstream.newClient =
+      ["userTimeout := time.Second * 10",
+      "sock := conn",
+      "if w, ok := conn.(*netutil.Conn); ok { sock = w.Conn }",
+      "if err := syscall.SetTCPUserTimeout(sock, userTimeout); err != nil { return nil, err }",
+      "c := &client{ cfg: cfg, logger: logger, conn: conn, enc: newEncoder(conn, 4096), dec: newDecoder(conn, 8192), pendingReqs: make(chan *simpleRequest, 1024), processingReqs: make(chan *simpleRequest, 1024), quit: make(chan struct{}), done: make(chan struct{}), }",
+      "for _, option := range options { option(c) }",
+      "if err := c.initFilters(); err != nil { return nil, err }",
+      "readOnlyReq := newSimpleRequest(newStringArray(\"readonly\"))",
+      "c.Send(readOnlyReq)",
+      "return c, nil"] := rfl
+
 end SamVerif.Props.C07
 
 #print axioms SamVerif.Props.C07.error_only_when_unreachable
@@ -260,3 +274,4 @@ end SamVerif.Props.C07
 #print axioms SamVerif.Props.C07.no_redirect_after_refresh
 #print axioms SamVerif.Props.C07.converges_after_first_redirect
 #print axioms SamVerif.Props.C07.code_matches_model
+#print axioms SamVerif.Props.C07.new_client_matches_model
